@@ -1,6 +1,7 @@
 mod c14;
 mod checks;
 mod crash;
+mod damage;
 mod exec;
 mod explore;
 mod known;
